@@ -105,6 +105,10 @@ func (v *VoteDB) UpdateContext(round *big.Int, roundIndex uint32) {
 	if v.round != nil && v.round.Cmp(round) == 0 && v.roundIndex == roundIndex {
 		return
 	}
+	// never move backwards: the marks of a later (round, index) must survive a restart at index 1
+	if v.round != nil && (v.round.Cmp(round) > 0 || (v.round.Cmp(round) == 0 && v.roundIndex > roundIndex)) {
+		return
+	}
 
 	v.mark = make(map[VoteType]uint8)
 	v.round = round
@@ -167,6 +171,9 @@ func (v *VoteDB) ExistVoteData(voteType VoteType, round *big.Int, roundIndex uin
 }
 
 func (v *VoteDB) alreadyVoted(voteType VoteType, round *big.Int, roundIndex uint32) bool {
+	if v.round != nil && v.round.Cmp(round) > 0 {
+		return true
+	}
 	if v.round != nil && v.round.Cmp(round) == 0 {
 		if v.roundIndex > roundIndex ||
 			(v.roundIndex == roundIndex && voteType == NextIndex && v.mark[voteType] == 2) ||
